@@ -23,4 +23,9 @@ def pyLost (s : FSt) : FSt := { s with lost := true }
 /-- `self.timeout_handle.cancel()` -/
 def pyCancel (s : FSt) : FSt := { s with timer := none }
 
+/-- `self._unsent = pieces` in `_send_response` (the ghost `all` remembers what was handed over) -/
+def pySetUnsent (s : FSt) (ps : List Bytes) : FSt := { s with unsent := ps, all := ps }
+/-- `self._unsent.extend(pieces)` in `_send_response` -/
+def pySetUnsentExtend (s : FSt) (ps : List Bytes) : FSt := { s with unsent := s.unsent ++ ps, all := s.all ++ ps }
+
 end Srv.Flow
